@@ -9,6 +9,7 @@ import (
 	"time"
 
 	"github.com/fiorix/go-diameter/v4/diam"
+	"github.com/fiorix/go-diameter/v4/diam/avp"
 	"github.com/fiorix/go-diameter/v4/diam/datatype"
 	"github.com/fiorix/go-diameter/v4/diam/dict"
 	"github.com/fiorix/go-diameter/v4/diam/sm"
@@ -23,7 +24,7 @@ import (
 func init() {
 	Registry["C16"] = &Check{
 		Scenarios: c16Scenarios,
-		Rule: "complete grid: hop-by-hop and end-to-end ids from {0,1,2^31,2^32-1}^2 x all 256 command flag bytes x every (application, command) of the embedded dictionaries x result code {0 (none asked), 2001, 5012, 2^32-1} through Message.Answer; a second CER on a connection whose handshake has completed (if it is answered, the answer must mirror it); the state machine's success CEA, each failure CEA (5010, 5017, 5012, and 5012 for a CER that cannot be unmarshalled because the connection's dictionary lacks an AVP the CER struct names) and DWA for the same id grid over an in-memory transport; the same requests arriving on SCTP streams {0,1,5,15} of the in-memory multistream backend (and on a stream-less transport), answered by a handler through Answer().WriteTo and by the state machine: the backend must record the answer on the request's stream, also when the answer to a request is written later, while a request from another stream is being handled (all 16 stream pairs), also when the first 1 or 2 write attempts of that answer fail with a temporary error and are retried (WriteToWithRetry); and two application goroutines answering requests of different streams concurrently (every schedule up to preemption bound 2, thorough 3), on an association attached with NewConn and on one accepted by a Server with ReadTimeout and WriteTimeout set.",
+		Rule: "complete grid: hop-by-hop and end-to-end ids from {0,1,2^31,2^32-1}^2 x all 256 command flag bytes x every (application, command) of the embedded dictionaries x result code {0 (none asked), 2001, 5012, 2^32-1} through Message.Answer; a second CER on a connection whose handshake has completed (if it is answered, the answer must mirror it); the state machine's success CEA, each failure CEA (5010, 5017, 5012, and 5012 for a CER that cannot be unmarshalled because the connection's dictionary lacks an AVP the CER struct names) and DWA for the same id grid over an in-memory transport; the same requests arriving on SCTP streams {0,1,5,15} of the in-memory multistream backend (and on a stream-less transport), answered by a handler through Answer().WriteTo (answers of ordinary size and of 65400..200000 octets, around and beyond 64 KiB) and by the state machine: the backend must record the answer on the request's stream, also when the answer to a request is written later, while a request from another stream is being handled (all 16 stream pairs), also when the first 1 or 2 write attempts of that answer fail with a temporary error and are retried (WriteToWithRetry); and two application goroutines answering requests of different streams concurrently (every schedule up to preemption bound 2, thorough 3), on an association attached with NewConn and on one accepted by a Server with ReadTimeout and WriteTimeout set.",
 		Assume: []string{"single default schedule per exchange", "in-memory SCTP backend (hook diam/sctp_verif.go)"},
 		QuickBudget: 120, ThoroughBudget: 900,
 	}
@@ -375,54 +376,89 @@ func c16Deferred(r *SeqResult) {
 // c16Streams: a handler answering through the message API on every inbound stream.
 func c16Streams(r *SeqResult) {
 	for _, stream := range []uint16{0, 1, 5, 15} {
-		for _, hbh := range c16IDs {
+		for hi, hbh := range c16IDs {
 			for _, rc := range []uint32{0, 2001} {
-				stream, hbh, rc := stream, hbh, rc
-				var be *vnet.SCTP
-				s := vs.Run(nil, false, 5*time.Second, false, func() {
-					be = vnet.NewSCTP("S")
-					mux := diam.NewServeMux()
-					mux.HandleFunc("ALL", func(c diam.Conn, m *diam.Message) {
-						a := m.Answer(rc)
-						a.WriteTo(c)
-						// a second answer written with the explicit-retry entry point
-						m.Answer(rc).WriteToWithRetry(c, 1)
-					})
-					msc := diam.NewSCTPConnBackend(be)
-					if _, err := diam.NewConn(msc, "peer", mux, dict.Default); err != nil {
-						return
+				// extra: octets of an additional AVP in the answer; the long answers (around and beyond
+				// 64 KiB, the largest user message many SCTP stacks take in one send) with the first two
+				// id pairs only
+				for _, extra := range []int{0, 65400, 65536 - 20 - 8 - 12, 65536, 70000, 200000} {
+					if extra > 0 && (hi > 1 || rc == 0) {
+						continue
 					}
-					be.Deliver(stream, refcodec.EncodeMessage(refcodec.Header{Version: 1, Flags: 0x80, Code: 258, HbH: hbh, E2E: 9}, []refcodec.Node{ident(264, "c")}))
-					be.PeerEOF()
-				})
-				s.Teardown()
-				r.Cases++
-				r.Distinct++
-				if r.Sample == "" {
-					r.Sample = fmt.Sprintf("RAR on stream %d hbh=%#x -> %d answers recorded by the backend", stream, hbh, len(be.Writes))
-				}
-				if r.Violation != "" {
-					continue
-				}
-				v := ""
-				if len(be.Writes) != 2 {
-					v = fmt.Sprintf("%d answers recorded, expected 2", len(be.Writes))
-				}
-				for _, w := range be.Writes {
-					h, _ := refcodec.DecodeHeader(w.Data)
-					if w.Stream != stream {
-						v = fmt.Sprintf("request arrived on stream %d, an answer was written to stream %d", stream, w.Stream)
-					}
-					if h.HbH != hbh || h.E2E != 9 {
-						v = fmt.Sprintf("answer ids %#x/%#x, request ids %#x/0x9", h.HbH, h.E2E, hbh)
-					}
-				}
-				if v != "" {
-					r.Violation = fmt.Sprintf("handler answer (Answer(%d).WriteTo) to a request on SCTP stream %d with hop-by-hop %#x: %s", rc, stream, hbh, v)
-					r.Case = map[string]interface{}{"stream": stream, "hbh": hbh, "rc": rc}
+					c16StreamCase(r, stream, hbh, rc, extra)
 				}
 			}
 		}
+	}
+}
+
+func c16StreamCase(r *SeqResult, stream uint16, hbh, rc uint32, extra int) {
+	var be *vnet.SCTP
+	s := vs.Run(nil, false, 5*time.Second, false, func() {
+		be = vnet.NewSCTP("S")
+		mux := diam.NewServeMux()
+		mux.HandleFunc("ALL", func(c diam.Conn, m *diam.Message) {
+			a := m.Answer(rc)
+			if extra > 0 {
+				a.NewAVP(avp.ProxyState, avp.Mbit, 0, datatype.OctetString(make([]byte, extra)))
+			}
+			a.WriteTo(c)
+			// a second answer written with the explicit-retry entry point
+			a = m.Answer(rc)
+			if extra > 0 {
+				a.NewAVP(avp.ProxyState, avp.Mbit, 0, datatype.OctetString(make([]byte, extra)))
+			}
+			a.WriteToWithRetry(c, 1)
+		})
+		msc := diam.NewSCTPConnBackend(be)
+		if _, err := diam.NewConn(msc, "peer", mux, dict.Default); err != nil {
+			return
+		}
+		be.Deliver(stream, refcodec.EncodeMessage(refcodec.Header{Version: 1, Flags: 0x80, Code: 258, HbH: hbh, E2E: 9}, []refcodec.Node{ident(264, "c")}))
+		be.PeerEOF()
+	})
+	s.Teardown()
+	r.Cases++
+	r.Distinct++
+	if r.Sample == "" {
+		r.Sample = fmt.Sprintf("RAR on stream %d hbh=%#x -> %d answers recorded by the backend", stream, hbh, len(be.Writes))
+	}
+	if r.Violation != "" {
+		return
+	}
+	v := ""
+	// the answers may reach the association in one write each or in pieces: every write must go to
+	// the request's stream, and the bytes written, in order, must be exactly two answers
+	var all []byte
+	for i, w := range be.Writes {
+		if w.Stream != stream {
+			v = fmt.Sprintf("request arrived on stream %d, write %d of the answers (%d bytes) went to stream %d", stream, i, len(w.Data), w.Stream)
+			break
+		}
+		all = append(all, w.Data...)
+	}
+	n := 0
+	for v == "" && len(all) > 0 {
+		h, err := refcodec.DecodeHeader(all)
+		if err != nil || int(h.Length) > len(all) || h.Length < 20 {
+			v = fmt.Sprintf("the bytes written to stream %d are not a sequence of messages (after %d answers, %d bytes left)", stream, n, len(all))
+			break
+		}
+		if h.HbH != hbh || h.E2E != 9 {
+			v = fmt.Sprintf("answer ids %#x/%#x, request ids %#x/0x9", h.HbH, h.E2E, hbh)
+		}
+		if extra > 0 && int(h.Length) < extra {
+			v = fmt.Sprintf("answer of %d bytes, it was built with an AVP of %d octets", h.Length, extra)
+		}
+		all = all[h.Length:]
+		n++
+	}
+	if v == "" && n != 2 {
+		v = fmt.Sprintf("%d answers recorded, expected 2", n)
+	}
+	if v != "" {
+		r.Violation = fmt.Sprintf("handler answer (Answer(%d).WriteTo, %d extra octets) to a request on SCTP stream %d with hop-by-hop %#x: %s", rc, extra, stream, hbh, v)
+		r.Case = map[string]interface{}{"stream": stream, "hbh": hbh, "rc": rc, "extra": extra}
 	}
 }
 
